@@ -1,11 +1,19 @@
 """C15 - meta replicas converge on the same log, through snapshot and restore too.
 Mode A: TLC exhaustively checks specs/MetaCatalog.tla (design, Dev = {}) with the Snapshot / Persist /
 Restore actions for SnapshotPointInTime (what Persist writes is the catalogue at Snapshot time, applies
-allowed in between) and SnapshotComplete (restore + remaining commands = the node that applied everything).
-Mode B: TLC-generated behaviours are replayed into real meta.Data instances fed the same protobuf log:
-reference, replica that goes through Clone -> MarshalBinary -> UnmarshalBinary at the specification's
-positions, replica whose maps are re-created in shuffled order before every command (and the real storeFSM
-when the tree carries the verif hook); returns and canonical dumps must be equal after every step.
+allowed in between), SnapshotKeepsVersions (the per-name version counters MstVersions are in the image, also
+those whose measurement was dropped) and SnapshotComplete (restore + remaining commands = the node that
+applied everything; up to two snapshot rounds per behaviour), and - the code-level face of determinism - for
+ShardTypeUniform (every entry of a policy's measurement map, marked deleted or not, has one sharding type),
+WitnessIndependent and TemplateIndependent (whichever map entry validMeasurementShardType / CreateShardGroup
+take first, the command answers and does the same; HASH template = one shard per partition of the cluster,
+RANGE template = as many as the last group, several partitions per node).
+Mode B: TLC-generated behaviours (BFS paths, the systematic snapshot families = every path of measurement
+life-cycle commands with Snapshot / Persist / Restore at every position, simulation) are replayed into real
+meta.Data instances fed the same protobuf log: reference, replica that goes through Clone -> MarshalBinary ->
+UnmarshalBinary at the specification's positions, replica whose maps are re-created in shuffled order before
+every command, three fresh instances that just apply the log (Go randomises every map iteration) and the real
+storeFSM when the tree carries the verif hook; returns and canonical dumps must be equal after every step.
 See props/metacat_common.py and harness/cmd/vh/metacat.go."""
 import metacat_common as mc
 
@@ -15,17 +23,23 @@ ASSUMPTIONS = [
     "TLC bounds as in the cfg files named under coverage.tlc",
     "commands modelled: CreateDataNode, CreateSqlNode, CreateDbPtView, UpdateReplication, Create/MarkDelete/DropDatabase, "
     "Create/Update/MarkDelete/Drop/SetDefault RetentionPolicy, Create/MarkDelete/Drop Measurement, Create/Delete ShardGroup, "
-    "PruneGroups(shard), CreateUser, DropUser, SetPrivilege; the other registered command types are not replayed",
+    "PruneGroups(shard), CreateUser, DropUser, SetPrivilege; 15 further registered types are replayed as Opaque steps (the "
+    "specification only says that the modelled state does not change; arguments drawn by the harness from the live catalogue; judged "
+    "instance against instance): Create/DropSubscription, Create/DropContinuousQuery, ContinuousQueryReport, NotifyCQLeaseChanged, "
+    "UpdateUser, RegisterQueryIDOffset, UpdateShardInfoTier, UpdateIndexInfoTier, MarkTakeover, MarkBalancer, UpdatePtVersion, "
+    "UpdateSchema (single field, only with schema-clean off), UpdateShardDownSampleInfo; the remaining 31 types are not replayed",
     "real meta.Data driven in process through the exported apply functions of apply_func_base.go (the three handlers that live in "
     "store_fsm.go are mirrored in the harness; the real storeFSM is driven too when the tree carries the verif hook VerifFSM)",
     "dumps compare every field of the catalogue by reflection except raft position and incremental-sync bookkeeping; deletion "
     "stamps as set/unset; nil and empty containers are equal",
-    "at most one snapshot per behaviour; one partition per data node; HASH sharding; a single sql node",
+    "at most two snapshot rounds per behaviour; one or two partitions per data node (replication only with one); HASH and RANGE "
+    "sharding without re-sharding (shard bounds stay empty); a single sql node",
 ]
 
 
 def run(tier, seed):
-    cfgs = ["MetaCatalog.snap.quick.cfg"] if tier == "quick" else ["MetaCatalog.snap.thorough.cfg"]
+    cfgs = ["MetaCatalog.snap.quick.cfg", "MetaCatalog.life.quick.cfg"] if tier == "quick" else \
+           ["MetaCatalog.snap.thorough.cfg", "MetaCatalog.life.thorough.cfg"]
     return mc.run_check(PROP, tier, seed, cfgs, ASSUMPTIONS)
 
 
@@ -34,4 +48,5 @@ def replay(path, seed):
 
 
 def selftest(seed):
-    return mc.selftest(PROP, mc.SEEDS_C15, "MetaCatalog.snap.quick.cfg")
+    rc = mc.selftest(PROP, mc.SEEDS_C15, "MetaCatalog.snap.quick.cfg")
+    return mc.selftest(PROP, mc.SEEDS_C15_LIFE, "MetaCatalog.life.quick.cfg") or rc
